@@ -895,6 +895,85 @@ def rule_body_errors(ctx, rule):
     return v.decided
 
 
+def apply_native_table(w):
+    """the builtin `apply` (native base library) on (P a1 .. ak (l1 l2)) for k = 0..3, on (P a1 ()), on (P) alone, with a last argument
+    that is not a list, and with a first argument that is not a procedure: what is handed to apply_procedure"""
+    na = w.fb.find("interpreter::library::native::base::apply")
+
+    def vlist(items):
+        e0 = w.named(w.gp, "Empty", [])
+        e0.adt = "parser::pair::GenericPair"
+        v = w.named(w.val, "Pair", [e0])
+        v.adt = "values::Value"
+        for x in reversed(items):
+            c = w.named(w.gp, "Some", [x, v])
+            c.adt = "parser::pair::GenericPair"
+            v = w.named(w.val, "Pair", [c])
+            v.adt = "values::Value"
+        return v
+    rows = []
+    cases = [("%d-leading+list-of-2" % k, k, 2, "list") for k in range(0, 4)] + [("1-leading+empty-list", 1, 0, "list"), ("procedure-only", 0, 0, "absent"),
+             ("last-is-not-a-list", 1, 0, "atom"), ("first-is-not-a-procedure", 1, 2, "list/nonproc")]
+    for label, k, n, last in cases:
+        P = Tok("procedure", "P")
+        A = [Tok("arg", "A%d" % i) for i in range(1, k + 1)]
+        Ls = [Tok("arg", "L%d" % i) for i in range(1, n + 1)]
+        first = w.procedure_value(P) if "nonproc" not in last else w.named(w.val, "Boolean", [True])
+        first.adt = "values::Value"
+        args = [first] + A
+        if last.startswith("list"):
+            args.append(vlist(Ls))
+        elif last == "atom":
+            atom = w.named(w.val, "Boolean", [False])
+            atom.adt = "values::Value"
+            args.append(atom)
+        env = Frame(None, "caller-env")
+        r = Run(w)
+        try:
+            res = r.run(na, [args, env])
+        except (absint.Stuck, absint.Loop) as e:
+            rows.append((label, {"stuck": str(e)}))
+            continue
+        ap = [e for e in r.events if e[0] == "apply"]
+        rows.append((label, {"result": res, "applies": [(e[1], e[2], e[3]) for e in ap], "P": P, "want_args": A + Ls, "env": env, "kind": last}))
+    return na, rows
+
+
+def rule_apply_native(ctx, rule):
+    fb = ctx.fb()
+    t = tables(fb)
+    w = t["w"]
+    try:
+        if "apply-native" not in t:
+            t["apply-native"] = apply_native_table(w)
+        na, rows = t["apply-native"]
+    except mir.AnchorMissing as e:
+        ctx.undecided(rule, "apply", str(e))
+        return 0
+    v = Verdict(ctx, rule, mir_where(na))
+    for label, d in rows:
+        key = "apply/%s" % label
+        if "stuck" in d:
+            v.row(key, d, [])
+            continue
+        res, aps = d["result"], d["applies"]
+        if d["kind"] in ("atom", "list/nonproc"):
+            v.row(key, d, [(not aps, "something is applied although %s" % ("the last argument is not a list" if d["kind"] == "atom" else "the first argument is not a procedure")),
+                           (_err_kind(res, "TypeMisMatch"), "apply yields %r, expected a type error" % (res,))])
+            continue
+        got = [x for x in aps[0][1]] if aps and isinstance(aps[0][1], list) else None
+        v.row(key, d, [
+            (len(aps) == 1, "apply applies a procedure %d times (expected once)" % len(aps)),
+            (bool(aps) and aps[0][0] is d["P"], "what is applied is not the first argument"),
+            (got is not None and len(got) == len(d["want_args"]) and all(x is y for x, y in zip(got, d["want_args"])),
+             "the procedure is applied to %s, expected the leading arguments followed by the elements of the last (list) argument, in order: %s"
+             % (got, d["want_args"])),
+            (bool(aps) and aps[0][2] is d["env"], "the application does not run in the caller's environment"),
+            (contains(res, lambda x: isinstance(x, Tok) and x.kind == "result-of-apply"), "the value of apply is not the result of the application (%r)" % (res,)),
+        ])
+    return v.decided
+
+
 def _located(payload, loc):
     e = Enum(0, [payload, loc])
     e.name, e.adt = "Located", "error::Located"
